@@ -162,6 +162,50 @@ static void restart64(void) {
 	}
 }
 
+/* ---- writer side of the 64-bit restart arrays: block_builder round trip above 4 GiB (thorough tier; needs ~7 GiB of memory) ---- */
+static void bb64(void) {
+	for (size_t interval = 1; interval <= 2; interval++) {
+		ecase c = { 0 }; c.version = 65; c.comp = (int) interval;
+		vh_case_begin(render, &c);
+		size_t big = (size_t) 3 << 29;                              /* 1.5 GiB */
+		uint8_t *zeros = mmap(NULL, big, PROT_READ, MAP_PRIVATE | MAP_ANONYMOUS | MAP_NORESERVE, -1, 0);
+		if (zeros == MAP_FAILED) { printf("@error \"bb64: cannot map the source value\"\n"); vh_case_end(); return; }
+		static const char *keys[] = { "a", "b", "c", "d", "da", "db", "e" }; size_t vlen[7] = { big, big, big, big, 3, 0, 5 };
+		struct block_builder *bb = block_builder_init(interval);
+		for (int i = 0; i < 7; i++) block_builder_add(bb, (const uint8_t *) keys[i], strlen(keys[i]), zeros, vlen[i]);
+		uint8_t *buf; size_t size;
+		size_t est = block_builder_current_size_estimate(bb);
+		block_builder_finish(bb, &buf, &size);
+		if (size != est) vh_violation("bb64", "block of %zu bytes but the size estimate said %zu", size, est);
+		/* independent look at the tail: 64-bit restart array expected */
+		uint32_t nr = ic_le32(buf + size - 4); size_t nexp = interval == 1 ? 7 : 4;
+		if (nr != nexp) vh_violation("bb64", "restart count %u, expected %zu", nr, nexp);
+		else { uint64_t last = ic_le64(buf + size - 4 - 8); if (last <= 0xffffffffULL) vh_violation("bb64", "last restart offset %llu is not beyond 4 GiB: 32-bit array written for a >4 GiB block?", (unsigned long long) last); }
+		struct block *b = block_init(buf, size, false);
+		struct block_iter *bi = block_iter_init(b);
+		block_iter_seek_to_first(bi);
+		const uint8_t *k, *v; size_t kl, vl; int i = 0; bool ok = true;
+		do {
+			if (!block_iter_get(bi, &k, &kl, &v, &vl)) break;
+			if (i >= 7 || kl != strlen(keys[i]) || memcmp(k, keys[i], kl) || vl != vlen[i]) { vh_violation("bb64", "entry #%d of the built >4 GiB block reads back as key %s, value length %zu", i, vh_hex(k, kl), vl); ok = false; break; }
+			i++;
+		} while (block_iter_next(bi));
+		if (ok && i != 7) vh_violation("bb64", "iteration returned %d of 7 entries", i);
+		static const char *tg[] = { "", "a", "b", "cz", "d", "da", "daa", "db", "e", "f" };
+		for (unsigned t = 0; t < sizeof tg / sizeof *tg && ok; t++) {
+			block_iter_seek(bi, (const uint8_t *) tg[t], strlen(tg[t]));
+			int lb = 0; while (lb < 7 && strcmp(keys[lb], tg[t]) < 0) lb++;
+			bool got = block_iter_get(bi, &k, &kl, &v, &vl);
+			if (lb == 7 ? got : (!got || kl != strlen(keys[lb]) || memcmp(k, keys[lb], kl))) { vh_violation("bb64", "seek(%s) in the built >4 GiB block lands on %s", tg[t], got ? vh_hex(k, kl) : "end"); ok = false; }
+			VH_COUNT("transitions", 1);
+		}
+		block_iter_destroy(&bi); block_destroy(&b); free(buf); block_builder_destroy(&bb); munmap(zeros, big);
+		VH_COUNT("cases", 1); VH_COUNT("states", 1); VH_COUNT("builder64_blocks", 1);
+		vh_sig(vh_mix(65, interval));
+		vh_case_end();
+	}
+}
+
 int main(int argc, char **argv) {
 	vh_init(argc, argv);
 	nU = u5_gen(U, 2);
@@ -170,11 +214,13 @@ int main(int argc, char **argv) {
 		memset(&c, 0, sizeof c); int off = 0; const char *s = vh_case_arg;
 		if (sscanf(s, "E:%d:%d:%zu:%u:%u:%n", &c.version, &c.comp, &c.prefix, &c.cutmask, &c.restartmask, &off) < 5) return 2;
 		if (c.version == 64) { restart64(); return vh_finish(); }
+		if (c.version == 65) { bb64(); return vh_finish(); }
 		s += off; while (*s && c.n < MAXN) { int o2; if (sscanf(s, "%d.%d.%d,%n", &c.key[c.n], &c.share[c.n], &c.sep[c.n], &o2) < 3) break; c.n++; s += o2; }
 		check(&c); vh_count("transitions", n_lookups); return vh_finish();
 	}
 	const char *mode = vh_arg(0, "enc");
 	if (!strcmp(mode, "restart64")) { if (vh_shard == 0) restart64(); return vh_finish(); }
+	if (!strcmp(mode, "bb64")) { if (vh_shard == 0) bb64(); return vh_finish(); }
 	uint64_t idx = 0;
 	int maxn = vh_thorough ? 5 : 4;
 	static const int comps[6] = { 0, 1, 2, 3, 4, 5 };
